@@ -21,6 +21,9 @@ def cases(ctx):
 
     # roots: the signature algorithm must fit the own key
     for k in keys:
+        if k == "RSA-4096" and ctx.quick:
+            add([("e.yaml", cfg("CN=root", keyAlgorithm=k))], k, None, "root")      # one generation (a few seconds) so that every name is exercised on every change
+            continue
         if k in slow and ctx.quick:
             continue
         if k == "RSA-8192" and not ctx.quick:
